@@ -11,8 +11,9 @@ Definition status_of_code (c : Z) : option status :=
   | _ => None
   end%Z.
 
-(* an executor event as observed: which function ran, (_closed, #unterminated steps) before and after *)
-Record xobs := mkXO { xo_ev : xevent; xo_c0 : bool; xo_u0 : nat; xo_c1 : bool; xo_u1 : nat }.
+(* an executor event as observed: which function ran, _closed and every step's (terminated, status code) before
+   and after (steps in a fixed order) *)
+Record xobs := mkXO { xo_ev : xevent; xo_c0 : bool; xo_pre : list (bool * Z); xo_c1 : bool; xo_post : list (bool * Z) }.
 
 Inductive ccase :=
 (* _reduce_statuses(values) where a value is a status code, or any other int (no `case` matches) *)
@@ -26,7 +27,7 @@ Inductive ccase :=
 | CNet (win : list (list tok)) (specs : list tgspec) (fuel : nat) (failrun : bool)
        (obs : list (Z * list (list tok))) (raised : bool)
 (* executor closing logic: events, then the tail of run() *)
-| CExec (evs : list xobs) (failed_out any_bad raised : bool) (u_start u_return : nat)
+| CExec (evs : list xobs) (failed_out raised : bool) (at_start at_return : list (bool * Z))
 (* C05: the data tokens on the given workflow output ports, as bags, for every variant run (other schedule,
    other order of the injected tokens): each must be a permutation of the model's *)
 | COut (win : list (list tok)) (specs : list tgspec) (fuel : nat) (outs : list src)
@@ -62,10 +63,26 @@ Definition data_of (l : list tok) : list tok := filter (fun t => negb (is_term t
 
 Definition bad_code (c : Z) : bool := Z.eqb c 5 || Z.eqb c 6.
 
+Definition mk_steps (l : list (bool * Z)) : list xstep :=
+  map (fun p => mkXS (fst p) (match status_of_code (snd p) with Some st => st | None => WAITING end)) l.
+Definition terminal_code (c : Z) : bool := Z.eqb c 3 || Z.eqb c 4 || Z.eqb c 5 || Z.eqb c 6.
+
+(* model step m, observed before p and after q.  A step that was terminated keeps its state; a step the model
+   terminates is observed terminated with a terminal status (CANCELLED, or its own if it terminated by itself while
+   close() was suspended); otherwise it may only have progressed by itself *)
+Fixpoint check_post (ms : list xstep) (pre post : list (bool * Z)) : bool :=
+  match ms, pre, post with
+  | [], [], [] => true
+  | m :: ms', p :: pre', q :: post' =>
+      (if fst p then Bool.eqb (fst q) true && Z.eqb (snd q) (snd p) else true) &&
+      (if xs_term m then fst q && terminal_code (snd q) else true) &&
+      check_post ms' pre' post'
+  | _, _, _ => false
+  end.
+
 Definition check_xobs (o : xobs) : bool :=
-  let x1 := x_step x_cancel (mkX (xo_c0 o) (xo_u0 o)) (xo_ev o) in
-  Bool.eqb (closed x1) (xo_c1 o) &&
-  (if Nat.eqb (unterminated x1) 0 then Nat.eqb (xo_u1 o) 0 else Nat.leb (xo_u1 o) (xo_u0 o)).
+  let x1 := x_step x_cancel (mkX (xo_c0 o) (mk_steps (xo_pre o))) (xo_ev o) in
+  Bool.eqb (closed x1) (xo_c1 o) && check_post (xsteps x1) (xo_pre o) (xo_post o).
 
 Fixpoint check_case (c : ccase) : bool :=
   match c with
@@ -81,10 +98,16 @@ Fixpoint check_case (c : ccase) : bool :=
       (* the model itself must be quiescent with every step terminated: fuel was enough *)
       forallb (fun x => match sterm x with Some _ => true | None => false end) fin &&
       Bool.eqb raised (existsb (fun x => bad_code (sterm_code x)) fin || (failrun && existsb (fun o => bad_code (fst o)) obs))
-  | CExec evs failed_out any_bad raised u0 u1 =>
+  | CExec evs failed_out raised at_start at_return =>
       forallb check_xobs evs &&
-      (let r := x_run_tail x_cancel failed_out any_bad (mkX false u0) in
-       Bool.eqb (fst r) raised && (if Nat.eqb (unterminated (snd r)) 0 then Nat.eqb u1 0 else true))
+      (* the status check of run(), as coded, on the statuses observed when it returned *)
+      Bool.eqb raised (existsb (fun p => bad_code (snd p)) at_return) &&
+      (let x0 := mkX false (mk_steps at_start) in
+       let r := x_run_tail x_cancel failed_out x0 in
+       (* the model's verdict from the state in which the closing began: exact when no step was still running,
+          otherwise the observed raise must be one the model predicts *)
+       (if Nat.eqb (unterminated x0) 0 then Bool.eqb (fst r) raised else implb raised (fst r)) &&
+       forallb (fun q => fst q) at_return)
   | COut win specs fuel outs obs =>
       let fin := tg_run win specs fuel in
       let model := map (fun p => data_of (content imap win fin p)) outs in
